@@ -8,7 +8,7 @@
 EXTENDS GlomFrames
 
 CONSTANTS MaxDepth, SecondDepth,
-          Family     \* which binders / readers populate the trees: "scope" | "vars" | "ref"
+          Family     \* which binders / readers populate the trees: "scope" | "vars" | "ref" | "kw" | "deep"
 
 L(k, a) == N(k, a, <<>>)
 Leafs == CASE Family = "scope" -> {L("sbind", "x"), L("abind", "x"), L("read", "x"), L("fail", ""), L("gbind", "g"), L("gread", "g")}
@@ -49,6 +49,16 @@ RefsResolved(root, t, p) ==
 RECURSIVE HasKind(_, _)
 HasKind(t, ks) == t.k \in ks \/ \E i \in 1..Len(t.c) : HasKind(t.c[i], ks)
 
+\* family "deep": the same lexical rule far from the small scope -- an outer binder, n1 wrapper levels, an inner
+\* binder (or none), n2 more levels, the reader; each wrapper level is a scope frame of its own
+RECURSIVE W(_, _)
+W(n, t) == IF n = 0 THEN t ELSE N("auto", "", <<W(n - 1, t)>>)
+DeepTrees ==
+  {W(n0, N("pipe", "", <<L("sbind", "x"), W(n1, N("pipe", "", <<inner, W(n2, L("read", "x"))>>))>>))
+     : n0 \in {0, 40}, n1 \in {0, 30}, n2 \in {0, 20, 70}, inner \in {L("sbind", "x"), L("abind", "x"), L("mark", "")}}
+  \cup {W(n0, N("spec", "x", <<W(n1, N("pipe", "", <<inner, W(n2, L("read", "x"))>>))>>))
+     : n0 \in {0, 40}, n1 \in {0, 30}, n2 \in {0, 70}, inner \in {L("sbind", "x"), L("mark", "")}}
+
 VARIABLES tree, caller, run, phase
 vars == <<tree, caller, run, phase>>
 Top == Trees(MaxDepth - 1)
@@ -56,10 +66,11 @@ Init == phase = 0 /\ tree = L("fail", "") /\ caller = FALSE /\ run = [log |-> <<
 Pick ==
   /\ phase = 0 /\ phase' = 1
   /\ caller' \in BOOLEAN
-  /\ \/ \E k \in Bin, a \in Top, b \in Trees(SecondDepth) : tree' = N(k, "", <<a, b>>) \/ tree' = N(k, "", <<b, a>>)
-     \/ \E a \in Top, u \in Unary : tree' = N(u[1], u[2], <<a>>)
+  /\ \/ Family # "deep" /\ \E k \in Bin, a \in Top, b \in Trees(SecondDepth) : tree' = N(k, "", <<a, b>>) \/ tree' = N(k, "", <<b, a>>)
+     \/ Family # "deep" /\ \E a \in Top, u \in Unary : tree' = N(u[1], u[2], <<a>>)
+     \/ Family = "deep" /\ tree' \in DeepTrees
   /\ WellModed(tree', "AUTO") /\ NoSelfRef(tree') /\ RefsResolved(tree', tree', <<>>)
-  /\ (Family # "scope" => ~caller')
+  /\ (Family \notin {"scope", "deep"} => ~caller')
   /\ HasKind(tree', {"read", "gread", "vread", "refuse", "mark"}) /\ HasKind(tree', {"sbind", "abind", "spec", "gbind", "vbind", "refdef", "sbind2", "nbind"})
   /\ LET r == Start(tree', <<>>, IF caller' THEN << <<"x", <<"c">> >> >> ELSE <<>>) IN
        run' = [log |-> r.st.log, out |-> r.out, acts |-> r.st.acts]
